@@ -453,7 +453,7 @@ func ruleRespApplied(r *Run) {
 				if c, ok := co.(*ssa.Call); ok && strings.HasSuffix(calleeName(c), "protoreflect.Value).Message") {
 					// inside a loop over method.resp?
 					if mc, ok := isInvokeNamed(c.Call.Args[0], "Mutable", "Get"); ok {
-						for _, fo := range p.origins(mc.Common().Args[0], originOpts{}) {
+						for _, fo := range p.origins(p.throughLocaliser(mc.Common().Args[0]), originOpts{}) {
 							if u, ok := fo.(*ssa.UnOp); ok {
 								if ia, ok := u.X.(*ssa.IndexAddr); ok {
 									for _, so := range p.origins(ia.X, originOpts{}) {
